@@ -1109,3 +1109,108 @@ func globalLiteralLookup(g *ssa.Global, key constant.Value) (val constant.Value,
 	}
 	return nil, false, false
 }
+
+// handlerInstrs: the instructions that make up the interpreter's handler of
+// an opcode — those inside the case of the dispatch switch, and those of the
+// functions only that case calls (directly or through one another).
+func handlerInstrs(p *Program, a *anchors, op string) []ssa.Instruction {
+	var out []ssa.Instruction
+	for _, f := range p.LibFns {
+		if fnPkg(f) == nil || fnPkg(f).Pkg.Path() != Mod+"/vm" || f.Parent() != nil {
+			continue
+		}
+		if f != a.vmRun {
+			// a function with a home: judged as a whole by its call site
+			root, label := caseHome(p, f, f.Pos())
+			if root == f {
+				// it has a switch of its own around its first position? no: ask by its home
+				root, label = nil, ""
+				if caller, site := p.Home(f); caller != nil {
+					root, label = caseHome(p, caller, site.Pos())
+				}
+			}
+			if root != a.vmRun || !caseNames(label, op) {
+				continue
+			}
+			for _, b := range f.Blocks {
+				out = append(out, b.Instrs...)
+			}
+			continue
+		}
+		for _, b := range f.Blocks {
+			for _, ins := range b.Instrs {
+				if ins.Pos().IsValid() && caseNames(outerCase(p, f, ins.Pos()), op) {
+					out = append(out, ins)
+				}
+			}
+		}
+	}
+	return out
+}
+
+// caseNames: the case label lists the opcode (as a whole word).
+func caseNames(label, op string) bool {
+	for _, part := range strings.FieldsFunc(label, func(r rune) bool { return r == ',' || r == ' ' || r == '.' }) {
+		if part == op {
+			return true
+		}
+	}
+	return false
+}
+
+// liftTo: the instruction of target through which ins is reached — ins itself
+// when it is in target, otherwise the one call of the function it is in
+// (followed upwards through functions that have a single call site).
+func liftTo(p *Program, ins ssa.Instruction, target *ssa.Function) ssa.Instruction {
+	for d := 0; d < 5 && ins != nil; d++ {
+		if ins.Parent() == target {
+			return ins
+		}
+		_, site := p.Home(ins.Parent())
+		if site == nil {
+			return nil
+		}
+		ins = site.(ssa.Instruction)
+	}
+	return nil
+}
+
+// liftPair: x and y seen from the innermost function that contains both (one
+// of them possibly through the call that leads to it).
+func liftPair(p *Program, x, y ssa.Instruction) (ssa.Instruction, ssa.Instruction) {
+	var chain []*ssa.Function
+	for f, d := x.Parent(), 0; f != nil && d < 5; d++ {
+		chain = append(chain, f)
+		caller, _ := p.Home(f)
+		f = caller
+	}
+	for _, f := range chain {
+		if ly := liftTo(p, y, f); ly != nil {
+			if lx := liftTo(p, x, f); lx != nil {
+				return lx, ly
+			}
+		}
+	}
+	return nil, nil
+}
+
+// handlerFns: the functions of the machine that only one case of the
+// interpreter's dispatch switch calls (directly or through one another): the
+// parts of handlers that were given a function of their own.
+func handlerFns(p *Program, a *anchors) []*ssa.Function {
+	var out []*ssa.Function
+	for _, f := range p.LibFns {
+		if fnPkg(f) == nil || fnPkg(f).Pkg.Path() != Mod+"/vm" || f.Parent() != nil || f == a.vmRun {
+			continue
+		}
+		caller, site := p.Home(f)
+		if caller == nil {
+			continue
+		}
+		if root, label := caseHome(p, caller, site.Pos()); root == a.vmRun && label != "" {
+			out = append(out, f)
+		}
+	}
+	sort.Slice(out, func(i, j int) bool { return p.FnName(out[i]) < p.FnName(out[j]) })
+	return out
+}
